@@ -9,6 +9,8 @@
 //
 // tee: tee variant + 4 * connection kind.  Tee variant: 0 off, 1 TeeIn, 2 TeeOut, 3 both (the
 // model only distinguishes 0 / not 0); connection kind: see connKinds in scenario.go.
+// Kinds 0-3: TCP framing (net.Conn, io.ReadWriter, ConnectionState() wrapper, *tls.Conn); 4-8: the
+// WebSocket framing (raw carriers, client *websocket.Conn with an http: / https: / wss: origin).
 // explicit: StartTLS(cfg) with ServerName explicit.example / StartTLS(nil).
 // domain: index of the domainpart of the session's own address (origin);
 // remote: of the remote address (location) — equal or different.
@@ -16,7 +18,11 @@
 // that C02 does not constrain and that are probed once per run (see ctx).
 // others: id.nec.proh.negotiable,…  — instrumented features besides STARTTLS.
 // clear: clear-text segments '/'-separated, units ','-separated (see unit).
-// prot: what the peer sends in the TLS phase: units, or J = raw junk below TLS.
+// prot: what the peer sends in the TLS phase: units, or J = raw junk below TLS, or (first item) C1 /
+// C2 = the ClientHello is answered with a certificate for another name / of an unknown CA.
+// Units: see scenario.go (D: a stream error that declares its namespace itself).  A scenario with
+// oversized units carries the segmentation the decoder's 4096-byte reads induce; the comment
+// #oversized=<script with sizes> of its case keeps the original for the replay.
 // oracle: id.mask.restart.err,… — the features the implementation negotiated,
 // in order, with the scripted results of their Negotiate callbacks (the model
 // checks each pick against the set its selection rule allows).
